@@ -500,7 +500,7 @@ func runC12(r *core.Run) {
 		r.Count("concurrent_part_skipped_after_sequential_refutation", 1)
 		return
 	}
-	nsc := r.N(36, 300)
+	nsc := r.N(36, 200)
 	per := r.N(250, 1200)
 	r.Floor("interleavings", int64(nsc*per/4))
 	r.ForEach("conc", nsc, 0, func(c *core.Case) {
